@@ -20,6 +20,11 @@ def handle (j : Json) : Option Json := do
             ("lbx", xvalsJ r.lbx), ("ubx", xvalsJ r.ubx),
             ("sym", natsJ r.symbolic), ("dernoms", ratsJ r.derNoms),
             ("sidx", Json.arr sidx.toArray), ("cidx", Json.arr cidx.toArray)])
+  | "intersect" =>
+      -- bounds of one variable from several sources (user, Modelica min/max): intersection
+      let los ← getEValList j "lo"
+      let his ← getEValList j "hi"
+      pure (Json.arr #[(intersectLo los).toJson, (intersectHi his).toJson])
   | "interp" =>
       -- extended interpolation on its own (values may be ±inf / NaN)
       let mode ← getNat j "mode"
